@@ -1,7 +1,263 @@
-import GIV.Model.Cache
+/-
+  C05 — the cache returns exactly what was stored, or not-found, never other bytes.
+
+  Model: GIV.Model.Cache (fault-free, single process; every constant and deciding expression is
+  regenerated from cache/cache.go into GIV.Gen.Cache).  `H : Bytes → Hash` is an arbitrary hash
+  function; `fs : FS` an arbitrary cache directory (any bytes in any file, files missing).
+-/
+import GIV.Lemmas.CacheRefine
+
 namespace GIV.C05
 open GIV GIV.Cache
 
-theorem entrySize_eq : Gen.Cache.entrySize = 175 := by decide
+/-! ### witnesses used by the non-vacuity examples -/
+
+/-- a toy hash: the first 31 bytes (zero padded) and the length; injective on strings shorter than 32 bytes. -/
+def toyH (d : Bytes) : Hash :=
+  ⟨(d ++ List.replicate 31 0).take 31 ++ [d.length.toUInt8], by simp [Gen.Cache.HashSize]⟩
+
+def id1 : Hash := toyH [1]
+def id2 : Hash := toyH [2]
+
+/-- the contents of the example histories: sizes 0, 1, 2. -/
+def exC (d : Bytes) : Prop := d = [] ∨ d = [65] ∨ d = [65, 66]
+
+theorem toyH_inj_exC : ∀ a b, exC a → exC b → toyH a = toyH b → a = b := by
+  intro a b ha hb h
+  rcases ha with rfl | rfl | rfl <;> rcases hb with rfl | rfl | rfl <;> first | rfl | (exact absurd h (by decide))
+
+/-! ### the index-entry codec -/
+
+/-- The numbers of the property statement: a 175-byte record, 32-byte hashes. -/
+theorem sizes : Gen.Cache.HashSize = 32 ∧ Gen.Cache.hexSize = 64 ∧ Gen.Cache.entrySize = 175 := by decide
+
+/-- A formatted entry has exactly `entrySize` bytes as long as size and time fit their 20-digit fields
+(beyond 20 digits `%20d` overflows the field and the record gets longer). -/
+theorem fmtEntry_length (id out : Hash) (size t : Int)
+    (hs0 : 0 ≤ size) (hs1 : size < 10 ^ 20) (ht0 : 0 ≤ t) (ht1 : t < 10 ^ 20) :
+    (fmtEntry id out size t).length = Gen.Cache.entrySize := by
+  rw [fmtEntry_length' id out size t hs0 hs1 ht0 ht1]; decide
+
+example : (fmtEntry id1 id2 70000 1700000000000000000).length = Gen.Cache.entrySize :=
+  fmtEntry_length _ _ _ _ (by decide) (by decide) (by decide) (by decide)
+
+/-- `get` reads back what `putIndexEntry` wrote: for every id, output id, and size and time in `[0, 2^63)`
+(the int64 range; larger values are rejected by `ParseInt`, negative ones by the explicit tests). -/
+theorem parse_fmt (id out : Hash) (size t : Int) (hs0 : 0 ≤ size) (hs1 : size < 2 ^ 63) (ht0 : 0 ≤ t) (ht1 : t < 2 ^ 63) :
+    parseEntry id (fmtEntry id out size t) = .ok ⟨out, size, t⟩ :=
+  Cache.parse_fmt id out size t hs0 hs1 ht0 ht1
+
+example : parseEntry id1 (fmtEntry id1 id2 0 (2 ^ 63 - 1)) = .ok ⟨id2, 0, 2 ^ 63 - 1⟩ :=
+  parse_fmt _ _ _ _ (by decide) (by decide) (by decide) (by decide)
+
+/-- An index file is only ever accepted for the id it was looked up under: the id field of the bytes (positions
+3..67, hex, either case) decodes to `id`; the record is exactly `entrySize` bytes; size and time are non-negative. -/
+theorem parseEntry_id (id : Hash) (data : Bytes) (e : Entry) (h : parseEntry id data = .ok e) :
+    data.length = Gen.Cache.entrySize ∧ 0 ≤ e.size ∧ 0 ≤ e.time ∧
+    ∃ eid, slice data 3 67 = some eid ∧ hexDecode eid = some id.val := by
+  obtain ⟨hlen, eid, eout, esize, etime, h1, _, _, _, hd, _, _, hs, _, ht⟩ := parseEntry_ok h
+  refine ⟨hlen, hs, ht, eid, ?_, decodeHash_some hd⟩
+  have hl : data.length = 175 := by rw [hlen]; decide
+  rw [readFull_fst, show Gen.Cache.eidLo = 3 by decide, show Gen.Cache.eidHi = 67 by decide] at h1
+  rw [← h1]
+  simp only [slice, List.length_append, List.length_take, List.length_replicate]
+  have hb : Gen.Cache.bufLen = 176 := by decide
+  simp only [hb, hl]
+  simp [List.take_append, List.take_take, hl]
+
+example : ∃ eid, slice (fmtEntry id1 id2 5 7) 3 67 = some eid ∧ hexDecode eid = some id1.val :=
+  (parseEntry_id id1 _ _ (parse_fmt id1 id2 5 7 (by decide) (by decide) (by decide) (by decide))).2.2.2
+
+/-- `get` only succeeds on the index file of that id, through `parseEntry`. -/
+theorem get_ok (fs : FS) (now : Int) (id : Hash) (e : Entry) (fs' : FS) (h : get fs now id = (.ok e, fs')) :
+    ∃ f, fs.get (fileName id keyA) = some f ∧ parseEntry id f.data = .ok e := by
+  unfold get at h
+  split at h
+  · cases h
+  · rename_i f hf
+    split at h
+    · cases h
+    · rename_i e' he
+      cases h
+      exact ⟨f, hf, he⟩
+
+example : ∃ f, (FS.empty.set (fileName id1 keyA) ⟨fmtEntry id1 id2 5 7, 0⟩).get (fileName id1 keyA) = some f ∧
+    parseEntry id1 f.data = .ok ⟨id2, 5, 7⟩ :=
+  ⟨_, FS.get_set_self _ _ _, parse_fmt id1 id2 5 7 (by decide) (by decide) (by decide) (by decide)⟩
+
+/-! ### the gates: whatever state the files are in -/
+
+/-- GetBytes returns not-found or bytes whose hash is the reported OutputID — for every cache directory. -/
+theorem getBytes_gate (H : Bytes → Hash) (fs : FS) (now : Int) (id : Hash) (d : Bytes) (e : Entry) (fs' : FS)
+    (h : getBytes H fs now id = (.ok (d, e), fs')) : H d = e.out := by
+  unfold getBytes at h
+  split at h
+  · cases h
+  · simp only [] at h
+    split at h
+    · cases h
+    · rename_i hr
+      simp only [Prod.mk.injEq, Except.ok.injEq] at h
+      obtain ⟨⟨hd, he⟩, _⟩ := h
+      subst hd he
+      simpa [Gen.Cache.getBytesReject] using hr
+
+/-- GetFile returns not-found or the name of a file whose length is the reported size — for every cache directory. -/
+theorem getFile_gate (fs : FS) (now : Int) (id : Hash) (f : Bytes) (e : Entry) (fs' : FS)
+    (h : getFile fs now id = (.ok (f, e), fs')) :
+    ∃ file, fs'.get f = some file ∧ (file.data.length : Int) = e.size ∧ f = fileName e.out keyD := by
+  unfold getFile at h
+  split at h
+  · cases h
+  · simp only [] at h
+    split at h
+    · cases h
+    · rename_i file hfile
+      split at h
+      · cases h
+      · rename_i hr
+        simp only [Prod.mk.injEq, Except.ok.injEq] at h
+        obtain ⟨⟨hf, he⟩, hfs⟩ := h
+        subst hf he hfs
+        refine ⟨file, hfile, ?_, rfl⟩
+        simpa [Gen.Cache.getFileReject] using hr
+
+/-- a damaged directory on which the gates are exercised: the index entry of `id1` claims output `toyH [65]`
+of size 1, and the data file holds those bytes. -/
+def exFS : FS := (FS.empty.set (fileName id1 keyA) ⟨fmtEntry id1 (toyH [65]) 1 7, 0⟩).set (fileName (toyH [65]) keyD) ⟨[65], 0⟩
+
+theorem exFS_stored : Stored toyH exFS id1 [65] := by
+  refine ⟨⟨7, by decide, by decide, ?_⟩, ?_, by decide⟩
+  · simp only [exFS, dataOf_set, dataOf, FS.get_empty, Option.map_none]
+    rw [if_neg (fileName_a_ne_d _ _), if_pos rfl]; rfl
+  · simp only [exFS, dataOf_set]; rw [if_pos rfl]
+
+example : ∃ d e fs', getBytes toyH exFS 100 id1 = (.ok (d, e), fs') := by
+  obtain ⟨t, ht⟩ := exFS_stored.getBytes 100
+  cases h : getBytes toyH exFS 100 id1 with
+  | mk r fs' => rw [h] at ht; simp only at ht; subst ht; exact ⟨_, _, _, rfl⟩
+
+example : ∃ f e fs', getFile exFS 100 id1 = (.ok (f, e), fs') := by
+  obtain ⟨t, ht⟩ := exFS_stored.getFile 100
+  cases h : getFile exFS 100 id1 with
+  | mk r fs' => rw [h] at ht; simp only at ht; subst ht; exact ⟨_, _, _, rfl⟩
+
+/-- No lookup panics: no index or slice expression of `get` can be out of range whatever the index file holds,
+so every lookup returns an entry or a not-found reason. -/
+theorem lookup_total (H : Bytes → Hash) (fs : FS) (now : Int) (id : Hash) :
+    (get fs now id).1 ≠ .error .panic ∧ (getFile fs now id).1 ≠ .error .panic ∧
+    (getBytes H fs now id).1 ≠ .error .panic ∧ ∀ data, parseEntry id data ≠ .error .panic := by
+  have hp := parseEntry_ne_panic id
+  have hg : (get fs now id).1 ≠ .error .panic := by
+    unfold get
+    split
+    · simp
+    · split
+      · rename_i r h; intro h'; simp only at h'; cases h'; exact hp _ h
+      · simp
+  refine ⟨hg, ?_, ?_, hp⟩
+  · unfold getFile
+    split
+    · rename_i r fs1 h; rw [h] at hg; exact hg
+    · simp only []
+      repeat' split
+      all_goals simp
+  · unfold getBytes
+    split
+    · rename_i r fs1 h; rw [h] at hg; exact hg
+    · simp only []
+      repeat' split
+      all_goals simp
+
+example : (get (FS.empty.set (fileName id1 keyA) ⟨[1, 2, 3], 0⟩) 0 id1).1 ≠ .error .panic :=
+  (lookup_total toyH _ 0 id1).1
+
+/-! ### Put then Get -/
+
+/-- After a fault-free `Put(id, data)` the entry is stored intact (`Stored`): `GetBytes(id)` returns exactly `data`,
+`GetFile(id)` names a file holding exactly `data`, both with OutputID `H data` and size `len data` — and this stays
+so in every later state `fs''` that has the same file contents (`SameData`: all lookups only touch mtimes), i.e.
+until the entry is overwritten, trimmed or damaged.
+`hcoll`: a file already present under the output name with the same length and the same hash is `data` (no collision). -/
+theorem put_get (H : Bytes → Hash) (fs : FS) (now : Int) (id : Hash) (data : Bytes)
+    (hn0 : 0 ≤ now) (hn1 : now < 2 ^ 63) (hlen : (data.length : Int) < 2 ^ 63)
+    (hcoll : ∀ f, fs.get (fileName (H data) keyD) = some f → f.data.length = data.length → H f.data = H data → f.data = data) :
+    ∃ fs', put H fs now id data = (.ok (H data, (data.length : Int)), fs') ∧
+      ∀ fs'', SameData fs' fs'' → ∀ now',
+        (∃ t, (getBytes H fs'' now' id).1 = .ok (data, ⟨H data, data.length, t⟩)) ∧
+        (∃ t, (getFile fs'' now' id).1 = .ok (fileName (H data) keyD, ⟨H data, data.length, t⟩)) ∧
+        dataOf (getFile fs'' now' id).2 (fileName (H data) keyD) = some data := by
+  obtain ⟨fs', hp, hidx, hdat, _⟩ := put_spec H fs now id data hcoll
+  refine ⟨fs', hp, fun fs'' hs now' => ?_⟩
+  have hst : Stored H fs'' id data :=
+    (⟨⟨now, hn0, hn1, hidx⟩, hdat, hlen⟩ : Stored H fs' id data).of_sameData hs
+  refine ⟨hst.getBytes now', hst.getFile now', ?_⟩
+  rw [getFile_sameData]; exact hst.2.1
+
+/-- every lookup leaves all file contents as they are (only mtimes move): the states reachable by lookups
+from the state after a Put are among the `fs''` of `put_get`. -/
+theorem lookups_sameData (H : Bytes → Hash) (fs : FS) (now : Int) (id out : Hash) :
+    SameData fs (get fs now id).2 ∧ SameData fs (getFile fs now id).2 ∧
+    SameData fs (getBytes H fs now id).2 ∧ SameData fs (outputFile fs now out).2 :=
+  ⟨get_sameData _ _ _, getFile_sameData _ _ _, getBytes_sameData _ _ _ _, outputFile_sameData _ _ _⟩
+
+example : ∃ fs', put toyH FS.empty 5 id1 [65, 66] = (.ok (toyH [65, 66], 2), fs') ∧
+    ∃ t, (getBytes toyH fs' 6 id1).1 = .ok ([65, 66], ⟨toyH [65, 66], 2, t⟩) := by
+  obtain ⟨fs', h1, h2⟩ := put_get toyH FS.empty 5 id1 [65, 66] (by decide) (by decide) (by decide) (by intro f h; cases h)
+  exact ⟨fs', h1, (h2 fs' (SameData.refl _) 6).1⟩
+
+/-- A later Put of the same content repairs a damaged stored output: whatever `junk` sits under the output name —
+shorter, longer, or of the same length with wrong bytes — after `Put(id, data)` the data file holds `data`.
+(`hne`: junk of the same length *and* the same hash as `data` is `data`; that is the only case Put trusts the file.) -/
+theorem put_repairs (H : Bytes → Hash) (fs : FS) (now : Int) (id : Hash) (data junk : Bytes) (mt : Int)
+    (hjunk : fs.get (fileName (H data) keyD) = some ⟨junk, mt⟩)
+    (hne : junk.length = data.length → H junk = H data → junk = data) :
+    ∃ fs', put H fs now id data = (.ok (H data, (data.length : Int)), fs') ∧
+      dataOf fs' (fileName (H data) keyD) = some data := by
+  obtain ⟨fs', hp, _, hdat, _⟩ := put_spec H fs now id data (by
+    intro f hf hl hh
+    rw [hjunk] at hf; cases hf
+    exact hne hl hh)
+  exact ⟨fs', hp, hdat⟩
+
+/-- the three shapes of damage. -/
+example (fs : FS) (h : fs.get (fileName (toyH [65, 66]) keyD) = some ⟨[65], 0⟩) :       -- shorter
+    ∃ fs', (put toyH fs 9 id1 [65, 66]).2 = fs' ∧ dataOf fs' (fileName (toyH [65, 66]) keyD) = some [65, 66] := by
+  obtain ⟨fs', hp, hd⟩ := put_repairs toyH fs 9 id1 [65, 66] [65] 0 h (by intro h; cases h)
+  exact ⟨fs', by rw [hp], hd⟩
+example (fs : FS) (h : fs.get (fileName (toyH [65, 66]) keyD) = some ⟨[65, 67], 0⟩) :   -- same length, wrong bytes
+    ∃ fs', (put toyH fs 9 id1 [65, 66]).2 = fs' ∧ dataOf fs' (fileName (toyH [65, 66]) keyD) = some [65, 66] := by
+  obtain ⟨fs', hp, hd⟩ := put_repairs toyH fs 9 id1 [65, 66] [65, 67] 0 h (by intro _ h; exact absurd h (by decide))
+  exact ⟨fs', by rw [hp], hd⟩
+example (fs : FS) (h : fs.get (fileName (toyH [65, 66]) keyD) = some ⟨[65, 66, 67], 0⟩) : -- longer
+    ∃ fs', (put toyH fs 9 id1 [65, 66]).2 = fs' ∧ dataOf fs' (fileName (toyH [65, 66]) keyD) = some [65, 66] := by
+  obtain ⟨fs', hp, hd⟩ := put_repairs toyH fs 9 id1 [65, 66] [65, 66, 67] 0 h (by intro h; cases h)
+  exact ⟨fs', by rw [hp], hd⟩
+
+/-- Any fault-free sequence of Put / Get / GetBytes / GetFile / OutputFile operations, started from a cache that
+represents the abstract map `m` (`Inv`; in particular the empty directory and the empty map), returns exactly what
+the abstract map  id ↦ data  (last Put wins) returns: same OutputIDs, sizes, bytes, file names and file contents.
+`hinj`: `H` has no collision among the contents `C` that occur. -/
+theorem put_get_refines_map (H : Bytes → Hash) (C : Bytes → Prop)
+    (hinj : ∀ a b, C a → C b → H a = H b → a = b)
+    (ops : List (Int × Op)) (fs : FS) (m : AMap) (hI : Inv H C fs m) (hok : ∀ p ∈ ops, OpOK C p) :
+    runC H fs ops = runA H m (ops.map (·.2)) :=
+  run_refines H C hinj ops fs m hI hok
+
+/-- … in particular from the empty cache directory. -/
+theorem put_get_refines_map_empty (H : Bytes → Hash) (C : Bytes → Prop)
+    (hinj : ∀ a b, C a → C b → H a = H b → a = b) (ops : List (Int × Op)) (hok : ∀ p ∈ ops, OpOK C p) :
+    runC H FS.empty ops = runA H (fun _ => none) (ops.map (·.2)) :=
+  run_refines H C hinj ops _ _ (Inv.empty H C) hok
+
+example : runC toyH FS.empty [(1, .put id1 [65]), (2, .put id1 [65, 66]), (3, .getBytes id1), (4, .getBytes id2), (5, .getFile id1)] =
+    [.put (toyH [65]) 1, .put (toyH [65, 66]) 2, .bytes (some ([65, 66], toyH [65, 66], 2)), .bytes none,
+     .file (some (fileName (toyH [65, 66]) keyD, some [65, 66], toyH [65, 66], 2))] := by
+  rw [put_get_refines_map_empty toyH exC toyH_inj_exC _ (by
+    intro p hp
+    simp only [List.mem_cons, List.not_mem_nil, or_false] at hp
+    rcases hp with rfl | rfl | rfl | rfl | rfl <;> simp [OpOK, exC])]
+  have h12 : ¬ id2 = id1 := by decide
+  simp [runA, stepA, h12]
 
 end GIV.C05
